@@ -220,6 +220,9 @@ impl PartialEq for {T} {{
                 if not f['ring']:
                     continue
                 sig, body = u.slice_fn(self.types[T]['mod'], f['impl'], f['name'])
+                for a_, b_ in f['kw'].get('subst', ()):
+                    sig = sig.replace(a_, b_)
+                    body = body.replace(a_, b_)
                 sig = re.sub(r'\bfn\s+' + f['name'] + r'\b', 'fn real__' + f['name'], sig, count=1)
                 if not re.match(r'pub\b', sig):
                     sig = 'pub ' + sig
@@ -252,9 +255,13 @@ impl PartialEq for {T} {{
                     raise weave.Unsupported(f"{label}: output arity mismatch")
                 hyps = [tuple(h) for h in p['hyps']]
                 guard_eqs = []
+                guard_terms = []   # (taken, [(l, r)...]) for every condition of the path
                 for c in p['conds']:
+                    eqs = [tuple(e) for e in c['eqs']]
+                    if eqs:
+                        guard_terms.append((c['taken'], eqs))
                     if c['taken']:
-                        for l, r in c['eqs']:
+                        for l, r in eqs:
                             hyps.append((l, r))
                             guard_eqs.append((l, r))
                 texts = []
@@ -282,19 +289,25 @@ impl PartialEq for {T} {{
                                                           witness={k: hex(v) for k, v in (w or {}).items()},
                                                           code=dag.spec_txt(c)[:1500], spec=dag.spec_txt(s)[:1500]))
                         continue
-                    u.lemmas.append(dict(name=lname, head=head, body=body, group=label))
+                    if f['kw'].get('transfer'):
+                        u.lemmas.append(dict(name=lname, head=head, body=None, group=label, transfer=f['kw']['transfer']))
+                    else:
+                        u.lemmas.append(dict(name=lname, head=head, body=body, group=label))
                     info['lemmas'] += 1
                     acts = [self.actual(v, f) for v in params]
                     texts.append(" ".join(f"ax_fq_range({a});" for a in acts))
                     texts.append(f"{lname}({', '.join(a + '.v()' for a in acts)});")
                 if texts:
-                    if guard_eqs:
+                    if guard_terms:
                         names = set()
-                        for l, r in guard_eqs:
-                            names |= dag.leaves(l) | dag.leaves(r)
-                        g = " && ".join(f"{self.subst_actuals(dag.spec_txt(l), names, f)} == {self.subst_actuals(dag.spec_txt(r), names, f)}"
-                                        for l, r in guard_eqs)
-                        texts = [f"if {g} {{"] + texts + ["}"]
+                        for tk, eqs in guard_terms:
+                            for l, r in eqs:
+                                names |= dag.leaves(l) | dag.leaves(r)
+                        gl = []
+                        for tk, eqs in guard_terms:
+                            e = " && ".join(f"{self.subst_actuals(dag.spec_txt(l), names, f)} == {self.subst_actuals(dag.spec_txt(r), names, f)}" for l, r in eqs)
+                            gl.append(f"({e})" if tk else f"!({e})")
+                        texts = [f"if {' && '.join(gl)} {{"] + texts + ["}"]
                     bytag.setdefault(tag, []).extend(texts)
             calls[label] = bytag
             self.ring_info[label] = info
@@ -316,10 +329,13 @@ impl PartialEq for {T} {{
                             ghost.append((anchor, "proof { " + "\n".join(texts) + " }", where, occ))
                         else:
                             default_texts += texts
-                    if default_texts:
-                        blk = "proof { " + "\n".join(default_texts) + " }"
+                    pg = kw.pop('post_ghost', None)
+                    if default_texts or pg:
+                        blk = "proof { " + "\n".join(default_texts) + " }" + (" " + pg if pg else "")
                         kw['tail'] = blk
                         kw['before_returns'] = blk
                     kw['ghost'] = ghost
+                kw.pop('post_ghost', None)
+                kw.pop('transfer', None)
                 u.add(u.real_fn(self.types[T]['mod'], f['impl'], f['name'], self.contract(f), vis='pub', **kw))
             u.add("}")
